@@ -442,7 +442,7 @@ func c01R1(p *Prog, r *Report) {
 	if fi := p.Func("generator.(*fileManager).Get"); fi != nil {
 		info := fi.Pkg.TypesInfo
 		ok := false
-		ast.Inspect(fi.Decl, func(nn ast.Node) bool {
+		p.inspectRegion("generator.(*fileManager).Get", func(_ *FuncInfo, nn ast.Node) bool {
 			cl, isCl := nn.(*ast.CompositeLit)
 			if isCl && isNamed(info.TypeOf(cl), modPath+"/generator", "managedFile") {
 				if v := compositeField(cl, "Namer"); v != nil && callTo(info, v, modPath+"/namer", "", "New") != nil {
@@ -461,7 +461,7 @@ func c01R1(p *Prog, r *Report) {
 	if fi := p.Func("generator.(*generator).buildMethod"); fi != nil {
 		info := fi.Pkg.TypesInfo
 		ok := false
-		ast.Inspect(fi.Decl, func(nn ast.Node) bool {
+		p.inspectRegion("generator.(*generator).buildMethod", func(_ *FuncInfo, nn ast.Node) bool {
 			cl, isCl := nn.(*ast.CompositeLit)
 			if isCl && isNamed(info.TypeOf(cl), modPath+"/builder", "MethodContext") {
 				if v := compositeField(cl, "Namer"); v != nil && callTo(info, v, modPath+"/namer", "", "New") != nil {
